@@ -17,7 +17,7 @@ RULE = (
     "Histories: a Hypothesis RuleBasedStateMachine over two HDF5 files and the path pool {/, /a, /b, /g/c, /g/d, "
     "/x, /y/z}; rules create(mode a) at a free or occupied path, create(mode w), cp (same file / across files / "
     "root-to-root with overwrite), mv, ln hard / soft / external, URIs spelled with and without the leading "
-    "slash; both files also carry an unrelated root attribute, group and dataset. The model is a per-file map "
+    "slash, each operation through the Python API or the cooler cp/mv/ln command line; both files also carry an unrelated root attribute, group and dataset. The model is a per-file map "
     "path -> cooler content | soft link | external link, resolved by path at check time. After EVERY step, for "
     "both files: list_coolers = model paths in natural order; every listed path is_cooler and reads (bins, "
     "pixels, extra bin columns) as the model says; is_cooler is False - not an error - for the unrelated group, "
@@ -97,6 +97,16 @@ class World:
                 g.create_dataset("data", data=np.arange(5) + token)
         self.unrelated[fi] = token
 
+    def _do(self, op, what, fn, cli_args, src, dst, **kw):
+        """Run a file operation through the Python API or, when op['cli'] is set, through the command line."""
+        if op.get("cli"):
+            from ..cliutil import run_cli
+
+            rc, _, exc = run_cli([*cli_args, src, dst])
+            check(rc == 0 and exc is None, f"cooler {' '.join(cli_args)} ({what}) failed: exit {rc} {exc!r}")
+        else:
+            call(what, fn, src, dst, **kw)
+
     # -- operations ------------------------------------------------------------
     def apply(self, op):
         if self.ctx.shrink_expired():
@@ -174,7 +184,7 @@ class World:
         dp = self._free_dst(df, op["dst"])
         if dp is None:
             return False
-        call(f"cp {sp} -> f{df}{dp}", cp, self.uri(sf, sp, op["slash"]), self.uri(df, dp, not op["slash"]))
+        self._do(op, f"cp {sp} -> f{df}{dp}", cp, ["cp"], self.uri(sf, sp, op["slash"]), self.uri(df, dp, not op["slash"]))
         self.entries[df][dp] = {"kind": "cooler", "content": self.entries[sf][sp]["content"]}
         if sf != df:
             self.flags["cross"] = True
@@ -189,7 +199,7 @@ class World:
             return False
         if self.has_ext() or self.has_links(sf) or self.has_links(df) or any(f_ == df for f_, _ in self.link_targets()):
             return False
-        call("cp root -> other file root (overwrite)", cp, self.uri(sf, "/", op["slash"]), self.uri(df, "/", not op["slash"]), overwrite=True)
+        self._do(op, "cp root -> other file root (overwrite)", cp, ["cp", "-w"], self.uri(sf, "/", op["slash"]), self.uri(df, "/", not op["slash"]), overwrite=True)
         self.entries[df] = {p: dict(e) for p, e in self.entries[sf].items()}
         self.unrelated[df] = self.unrelated[sf]
         self.flags["cross"] = True
@@ -203,7 +213,7 @@ class World:
         dp = self._free_dst(sf, op["dst"])
         if dp is None:
             return False
-        call(f"mv {sp} -> {dp}", mv, self.uri(sf, sp, op["slash"]), self.uri(sf, dp, not op["slash"]))
+        self._do(op, f"mv {sp} -> {dp}", mv, ["mv"], self.uri(sf, sp, op["slash"]), self.uri(sf, dp, not op["slash"]))
         self.entries[sf][dp] = self.entries[sf].pop(sp)
 
     def op_ln(self, op):
@@ -219,7 +229,8 @@ class World:
         dp = self._free_dst(df, op["dst"])
         if dp is None:
             return False
-        call(f"ln {kind} {sp} -> f{df}{dp}", ln, self.uri(sf, sp, op["slash"]), self.uri(df, dp, not op["slash"]), soft=(kind != "hard"))
+        self._do(op, f"ln {kind} {sp} -> f{df}{dp}", ln, ["ln"] + (["-s"] if kind != "hard" else []),
+                 self.uri(sf, sp, op["slash"]), self.uri(df, dp, not op["slash"]), soft=(kind != "hard"))
         if kind == "hard":
             self.entries[df][dp] = {"kind": "cooler", "content": self.entries[sf][sp]["content"]}
         elif kind == "soft":
@@ -249,6 +260,12 @@ class World:
                                            f"listing {listed}, the file holds {true_paths}")
                 else:
                     raise Violation(f"after {self.history[-1]['op']}: list_coolers(f{fi}) = {listed}, the file holds {true_paths}")
+            if len(self.history) % 3 == 0:
+                from ..cliutil import run_cli
+
+                rc, out, exc = run_cli(["ls", path])
+                check(rc == 0 and out.split("\n")[:-1] == [path + "::" + g for g in listed],
+                      f"'cooler ls' prints {out.split()} but list_coolers gives {listed}")
             for p in true_paths:
                 for slash in (True, False):
                     u = self.uri(fi, p, slash)
@@ -320,21 +337,21 @@ def make_machine(ctx: Ctx):
             self.w.apply({"op": "create", "bt": bt, "rows": rows, "symmetric": sym, "file": file, "path": path, "mode": mode,
                           "with_weight": with_weight, "tag": self.tag, "slash": slash, "add_unrelated": add_unrelated})
 
-        @rule(src_file=st.integers(0, 1), src=st.integers(0, 9), dst_file=st.integers(0, 1), dst=st.integers(0, 9), slash=st.booleans())
-        def cp(self, src_file, src, dst_file, dst, slash):
-            self.w.apply({"op": "cp", "src_file": src_file, "src": src, "dst_file": dst_file, "dst": dst, "slash": slash})
+        @rule(src_file=st.integers(0, 1), src=st.integers(0, 9), dst_file=st.integers(0, 1), dst=st.integers(0, 9), slash=st.booleans(), cli=st.booleans())
+        def cp(self, src_file, src, dst_file, dst, slash, cli):
+            self.w.apply({"op": "cp", "src_file": src_file, "src": src, "dst_file": dst_file, "dst": dst, "slash": slash, "cli": cli})
 
-        @rule(src_file=st.integers(0, 1), slash=st.booleans())
-        def cp_root(self, src_file, slash):
-            self.w.apply({"op": "cp_root", "src_file": src_file, "slash": slash})
+        @rule(src_file=st.integers(0, 1), slash=st.booleans(), cli=st.booleans())
+        def cp_root(self, src_file, slash, cli):
+            self.w.apply({"op": "cp_root", "src_file": src_file, "slash": slash, "cli": cli})
 
-        @rule(file=st.integers(0, 1), src=st.integers(0, 9), dst=st.integers(0, 9), slash=st.booleans())
-        def mv(self, file, src, dst, slash):
-            self.w.apply({"op": "mv", "file": file, "src": src, "dst": dst, "slash": slash})
+        @rule(file=st.integers(0, 1), src=st.integers(0, 9), dst=st.integers(0, 9), slash=st.booleans(), cli=st.booleans())
+        def mv(self, file, src, dst, slash, cli):
+            self.w.apply({"op": "mv", "file": file, "src": src, "dst": dst, "slash": slash, "cli": cli})
 
-        @rule(src_file=st.integers(0, 1), src=st.integers(0, 9), dst=st.integers(0, 9), kind=st.sampled_from(["hard", "soft", "ext"]), slash=st.booleans())
-        def ln(self, src_file, src, dst, kind, slash):
-            self.w.apply({"op": "ln", "src_file": src_file, "src": src, "dst": dst, "kind": kind, "slash": slash})
+        @rule(src_file=st.integers(0, 1), src=st.integers(0, 9), dst=st.integers(0, 9), kind=st.sampled_from(["hard", "soft", "ext"]), slash=st.booleans(), cli=st.booleans())
+        def ln(self, src_file, src, dst, kind, slash, cli):
+            self.w.apply({"op": "ln", "src_file": src_file, "src": src, "dst": dst, "kind": kind, "slash": slash, "cli": cli})
 
     return FileOps
 
